@@ -187,9 +187,18 @@ def _dictionary_pools():
 
 DICT_UNKNOWN, DICT_PAIRS, DICT_TOKENS = _dictionary_pools()
 UNKNOWN_TOKENS = UNKNOWN_TOKENS + [t for t in DICT_UNKNOWN if t not in UNKNOWN_TOKENS]
+# names that a Unicode case mapping would turn into a coding name (dotless / dotted i, fl ligature, full-width letters): unknown
+UNKNOWN_TOKENS = UNKNOWN_TOKENS + ["gz\u0131p".encode(), "GZ\u0130P".encode(), "de\ufb02ate".encode(), "DE\ufb02ATE".encode(), "\uff47zip".encode(), "g\u200bzip".encode()]
+
+
+UNI_WS = ["\u00a0", "\u2003", "\u3000", "\u0085", "\u000b", "\u000c", "\u2028", "\u1680"]
 
 
 def spell(rng, tok):
+    """a coding name as a sender may write it: any letter case, optional white space around it — `header_tokens` trims with
+    `str::trim`, i.e. Unicode white space (only a caller who fills the header list by hand can put non-ASCII there)"""
+    if rng.chance(1, 12):
+        return rng.pick(UNI_WS + [""]).encode() + gen.randcase(rng, tok) + rng.pick(UNI_WS).encode()
     return rng.pick([b"", b" ", b"\t", b"  "]) + gen.randcase(rng, tok) + rng.pick([b"", b" ", b"\t"])
 
 
@@ -231,7 +240,7 @@ def gen_decode_case(rng, depth=None, unknown_p=0.3, big_p=0.0, split_p=0.25, cor
     # expected: walk from the end while tokens are known
     undone = 0
     keep = list(all_toks)
-    while keep and keep[-1].strip(b" \t").lower() in (b"gzip", b"deflate"):
+    while keep and rust_trim(keep[-1]).lower() in (b"gzip", b"deflate"):
         keep.pop()
         undone += 1
     # an empty *last* token is dropped by split_terminator
@@ -286,7 +295,7 @@ def py_tokens(values):
         parts = v.split(b",")
         if parts and parts[-1] == b"":
             parts = parts[:-1]
-        out += [p.strip(b" \t\n\r\x0b\x0c").lower() for p in parts]
+        out += [rust_trim(p).lower() for p in parts]       # `str::trim` (Unicode white space), then to_ascii_lowercase
     return out
 
 
